@@ -196,7 +196,8 @@ Record revision := {
   fix_alias_nodes_only : bool;   (* insert aliases rejects edge ids *)
   fix_strict_order : bool;       (* ordering comparisons only within one value kind *)
   fix_slice_clamp : bool;        (* SearchQuery::slice clamps instead of panicking *)
-  fix_edge_origin : bool         (* a search from an edge does not chain the origin's siblings *)
+  fix_edge_origin : bool;        (* a search from an edge does not chain the origin's siblings *)
+  fix_visited_chain : bool       (* an already visited edge met in a node's edge list does not cut the list *)
 }.
 
 Section Rev.
